@@ -298,7 +298,7 @@ class OctetStringPayloadDecoder(AbstractSimplePayloadDecoder):
                      tagSet=None, length=None, state=None,
                      decodeFun=None, substrateFun=None,
                      **options):
-        if substrateFun:
+        if substrateFun and substrateFun is not self.substrateCollector:
             asn1Object = self._createComponent(asn1Spec, tagSet, noValue, **options)
 
             for chunk in substrateFun(asn1Object, substrate, length, options):
